@@ -95,6 +95,28 @@ def outputs(m, x):
     return torch.cat([y.reshape(-1) for y in ys])
 
 
+def ties(m):
+    """parameter-tying partition: groups of parameter names that share storage (GPT wte / lm_head)"""
+    groups = {}
+    for k, p_ in m.named_parameters(remove_duplicate=False):
+        if p_.numel():
+            groups.setdefault((p_.data_ptr(), tuple(p_.shape)), []).append(k)
+    return sorted(sorted(v) for v in groups.values() if len(v) > 1)
+
+
+def structure(m):
+    """module-class structure: the layer / activation classes in registration order"""
+    return [type(x).__name__ for x in nn.Module.modules(m)]
+
+
+def sgd_like_step(m, seed):
+    """in-place update of every parameter through named_parameters, as an optimizer step does (p.data.add_)"""
+    g = torch.Generator().manual_seed(seed)
+    with torch.no_grad():
+        for _, p_ in m.named_parameters():
+            p_.data.add_(torch.randint(-9, 10, p_.shape, generator=g).float())
+
+
 def all_eval(m):
     return not any(sub.training for sub in nn.Module.modules(m))
 
@@ -273,7 +295,7 @@ class C04(vlib.Driver):
                     cases.append({"kind": "e2e", "block": blk, "seed": nseed, "ops": [["train"], ["mut", meth, args_for(meth, guard=True)], ["clone"]]}); nseed += 1
                 b1, g1, s1 = (rng.choice(methods) for _ in range(3))
                 cases.append({"kind": "e2e", "block": blk, "seed": nseed,
-                              "ops": [["bad", b1, bad_args(b1)], ["mut", g1, args_for(g1, effective=True)], ["clone"],
+                              "ops": [["bad", b1, bad_args(b1)], ["mut", g1, args_for(g1, effective=True)], ["step"], ["clone"],
                                       ["sibling", s1, args_for(s1, effective=True)], ["clone"]]}); nseed += 1
                 continue
             for meth in methods:
@@ -295,6 +317,11 @@ class C04(vlib.Driver):
             cases.append({"kind": "e2e", "block": blk, "seed": nseed,
                           "ops": [["train"], ["bad", b1, bad_args(b1)], ["mut", g1, args_for(g1, effective=True)], ["clone"],
                                   ["bad", b2, bad_args(b2)], ["mut", g2, args_for(g2, effective=True)], ["clone"], ["reinit"]]}); nseed += 1
+            # mutation -> in-place update of all parameters (what an optimizer step does) -> clone: tied / aliased tensors
+            u1, u2 = rng.choice(methods), rng.choice(methods)
+            cases.append({"kind": "e2e", "block": blk, "seed": nseed,
+                          "ops": [["mut", u1, args_for(u1, effective=True)], ["step"], ["clone"], ["mut", u2, args_for(u2, guard=True)], ["rand"], ["clone"],
+                                  ["step"], ["reinit"]]}); nseed += 1
             # siblings: clone the parent, mutate the clone (every method), clone the parent again
             sib = [["sibling", meth, args_for(meth, effective=True)] for meth in methods]
             cases.append({"kind": "e2e", "block": blk, "seed": nseed, "ops": [["train"]] + sib + [["clone"], ["reinit"]]}); nseed += 1
@@ -379,6 +406,7 @@ class C04(vlib.Driver):
             arch_b = canon(m.init_dict)
             y_b = outputs(m, x)
             p_b, b_b = snap(m), snap_buffers(m)
+            ties_b, struct_b = ties(m), structure(m)
             rec = {"op": op[0]}
             if op[0] == "mut":
                 try:
@@ -436,6 +464,8 @@ class C04(vlib.Driver):
                     break
             elif op[0] == "rand":
                 randomise(m, 5000 + case["seed"] * 131 + oi)
+            elif op[0] == "step":
+                sgd_like_step(m, 6000 + case["seed"] * 131 + oi)
             elif op[0] == "train":
                 B.train_forward(m, x)
             else:
@@ -464,6 +494,11 @@ class C04(vlib.Driver):
             npar = len(list(m.named_parameters(remove_duplicate=False)))
             rec["weights_equal"] = p_a[:npar] == p_b[:npar]         # parameters only
             rec["buffers_equal"] = b_a == b_b
+            rec["ties_equal"] = ties(m) == ties_b
+            rec["ties"] = [ties_b, ties(m)] if not rec["ties_equal"] else None
+            sa = structure(m)
+            rec["struct_equal"] = sa == struct_b
+            rec["struct_diff"] = [[i, a_, b_] for i, (a_, b_) in enumerate(zip(struct_b, sa)) if a_ != b_][:4] if not rec["struct_equal"] else None
             rec["buffers_changed"] = sorted({k for (k, s, v), (k2, s2, v2) in zip(b_a, b_b) if (s, v) != (s2, v2)}
                                              | ({k for k, _, _ in b_a} ^ {k for k, _, _ in b_b}))[:6]
             obs["steps"].append(rec)
@@ -709,7 +744,17 @@ class C04(vlib.Driver):
                 for v in out:
                     v.step = oi
                 break
-            if op[0] == "sibling" and not (rec["same_arch"] and rec["params_equal"] and rec["out_equal"]):
+            if op[0] != "train" and not rec["ties_equal"]:
+                out.append(Violation("tie-changed", f"e2e:tie-changed:{blk}",
+                                     f"{where}: the parameter-tying partition (names sharing storage) was {rec['ties'][0]} and is {rec['ties'][1]}: "
+                                     f"tied weights silently became independent (or vice versa); they diverge at the next in-place update"))
+            elif op[0] in ("clone", "reinit") and rec["params_equal"] and not rec["struct_equal"]:
+                out.append(Violation("structure", f"e2e:{op[0]}-structure:{blk}",
+                                     f"{where}: the copy has equal parameters but another module-class structure: (index, original, copy) {rec['struct_diff']}"))
+            elif op[0] in ("mut", "recreate", "bad", "sibling") and rec["same_arch"] and rec["params_equal"] and not rec["struct_equal"]:
+                out.append(Violation("structure", f"e2e:same-arch-structure:{blk}",
+                                     f"{where}: init_dict and parameters unchanged but the module-class structure changed: (index, before, after) {rec['struct_diff']}"))
+            elif op[0] == "sibling" and not (rec["same_arch"] and rec["params_equal"] and rec["out_equal"]):
                 out.append(Violation("sibling-changed-parent", f"e2e:sibling-changed-parent:{blk}",
                                      f"{where}: a clone of the module was mutated ({rec['sibling']}) and discarded; the PARENT changed: init_dict equal "
                                      f"{rec['same_arch']}, parameters/buffers equal {rec['params_equal']}, outputs equal {rec['out_equal']}"))
